@@ -144,8 +144,9 @@ class NameBinder(NodeVisitor):
         self.generic_visit(node)
 
     def visit_Global(self, node):
-        for name in node.names:
-            self.get_binding(name, node.namespace).add_reference(node)
+        # A global statement does not bind the name by itself.
+        # It is resolved later, to the module binding if one exists, or as a builtin / unbound name otherwise
+        pass
 
     def visit_MatchAs(self, node):
         if node.name is not None and node.name not in node.namespace.nonlocal_names:
